@@ -550,7 +550,7 @@ class StdVectorBase : private Alloc {
 
   template <class OSizeType, class OAlloc>
   bool canSwapDynStorage(StdVectorBase<T, OAlloc, OSizeType> &) const noexcept {
-    return std::is_same<OAlloc, Alloc>::value;
+    return std::is_same<OAlloc, Alloc>::value && std::is_same<OSizeType, SizeType>::value;
   }
 
   template <class VectorType>
@@ -712,7 +712,7 @@ class SmallVectorBase : private Alloc {
 
   template <class OAlloc, class OSizeType>
   bool canSwapDynStorage(StdVectorBase<T, OAlloc, OSizeType> &) const noexcept {
-    return std::is_same<OAlloc, Alloc>::value && !isSmall();
+    return std::is_same<OAlloc, Alloc>::value && std::is_same<OSizeType, SizeType>::value && !isSmall();
   }
   template <class OSizeType>
   bool canSwapDynStorage(StaticVectorBase<T, OSizeType> &) const noexcept {
@@ -720,7 +720,7 @@ class SmallVectorBase : private Alloc {
   }
   template <class OSizeType, class OAlloc>
   bool canSwapDynStorage(SmallVectorBase<T, OAlloc, OSizeType> &o) const noexcept {
-    return std::is_same<OAlloc, Alloc>::value && !isSmall() && !o.isSmall();
+    return std::is_same<OAlloc, Alloc>::value && std::is_same<OSizeType, SizeType>::value && !isSmall() && !o.isSmall();
   }
 
   template <class VectorType>
@@ -793,7 +793,7 @@ class SmallVectorBase : private Alloc {
 template <class T, class Alloc, class SizeType>
 template <class OSizeType, class OAlloc>
 bool StdVectorBase<T, Alloc, SizeType>::canSwapDynStorage(SmallVectorBase<T, OAlloc, OSizeType> &o) const noexcept {
-  return std::is_same<OAlloc, Alloc>::value && !o.isSmall();
+  return std::is_same<OAlloc, Alloc>::value && std::is_same<OSizeType, SizeType>::value && !o.isSmall();
 }
 
 template <class T, class SizeType, class GrowingPolicy>
@@ -840,7 +840,16 @@ class StaticVector : public StaticVectorBase<T, SizeType> {
   template <class VectorType>
   void swap2_impl(VectorType &o) noexcept(is_swap_noexcept<T>::value) {
     swap_deep(this->begin(), this->size(), o.begin(), o.size());
-    swap_sizetype(this->msize(), o.msize());
+    exchangeSizes(o);
+  }
+
+  /// Exchange sizes with 'o' once elements have been deeply swapped (each capacity is known to be large enough).
+  /// Goes through setSize: a SmallVector in small state encodes its size together with its capacity.
+  template <class VectorType>
+  void exchangeSizes(VectorType &o) noexcept {
+    SizeType oldSize = this->size();
+    this->setSize(static_cast<SizeType>(o.size()));
+    o.setSize(static_cast<typename VectorType::size_type>(oldSize));
   }
 
   // Adjust capacity methods take uintmax_t as parameter to check for size_type overflow
@@ -965,18 +974,30 @@ class DynamicVector : public DynamicVectorBaseTypeDispatcher<T, Alloc, SizeType,
   void swap2_impl(StaticVector<T, OSizeType, OGrowingPolicy> &o) noexcept(is_swap_noexcept<T>::value) {
     // Here 'o' cannot grow so we cannot swap any dynamic storage. Deeply swap all elements
     swap_deep(this->begin(), this->size(), o.begin(), o.size());
-    swap_sizetype(this->msize(), o.msize());
+    exchangeSizes(o);
   }
 
   template <class OAlloc, class OSizeType, bool OWithInlineElems>
   void swap2_impl(DynamicVector<T, OAlloc, OSizeType, OWithInlineElems> &o) noexcept(is_swap_noexcept<T>::value) {
     if (this->canSwapDynStorage(o)) {
+      // Both vectors are on dynamic storage (same allocator and size type): exchange buffers, sizes and capacities.
+      // Sizes first: the size word of a SmallVector is located through its capacity word.
       this->swapDynStorage(o);
+      swap_sizetype(this->msize(), o.msize());
       swap_sizetype(this->mcapacity(), o.mcapacity());
     } else {
       swap_deep(this->begin(), this->size(), o.begin(), o.size());
+      exchangeSizes(o);
     }
-    swap_sizetype(this->msize(), o.msize());
+  }
+
+  /// Exchange sizes with 'o' once elements have been deeply swapped (each capacity is known to be large enough).
+  /// Goes through setSize: a SmallVector in small state encodes its size together with its capacity.
+  template <class VectorType>
+  void exchangeSizes(VectorType &o) noexcept {
+    SizeType oldSize = this->size();
+    this->setSize(static_cast<SizeType>(o.size()));
+    o.setSize(static_cast<typename VectorType::size_type>(oldSize));
   }
 
   // Adjust capacity methods take uintmax_t as parameter to check for size_type overflow
